@@ -31,7 +31,7 @@ type c04Tpl struct {
 	body    []*c04Tpl
 	hasElse bool
 	els     []*c04Tpl
-	gap     string // what stands between the loop and its v-else sibling
+	gap     string   // what stands between the loop and its v-else sibling
 	echo    []string // print: variables bound once more as attributes of their own name (:x="x"), unobserved
 }
 
@@ -609,6 +609,7 @@ func runC04(r *Run) {
 	c04NilItems(r)
 	c04MixedItems(r)
 	c04LoopElementDirectives(r)
+	c04DescendantState(r)
 	r.Imports = []string{"Base.Val", "Model.Stack", "Model.Loops", "Model.ForHead"}
 	c04Heads(r)
 	r.Rule("loop nests up to depth 3 over slices and arrays of every element kind ([]any, []int, []string, [2]string and [3]int including all-zero arrays, [][]any, []map, []*S1 with nil members, []S1), lengths 0..3, nil, missing and non-sequence collections, and over maps (map[string]any, map[string]string, map[int]string, a map of maps; 0..7 entries whose printed keys sort differently from their numeric / listing order), " +
@@ -845,6 +846,41 @@ func c04LoopElementDirectives(r *Run) {
 					r.Fail("an instance of a loop whose element carries a further directive does not show its own item", map[string]string{"oracle": "loop-element-directives", "form": f.name},
 						map[string]any{"template": tpl, "items": fmt.Sprint(bs), "output": out, "expected_without_whitespace": want, "err": fmt.Sprint(err)})
 				}
+			}
+		}
+	}
+}
+
+// elements INSIDE the looped element that carry static attributes next to v-show / v-text / v-html / :class: what one
+// instance makes of them (display:none, a payload, a class) belongs to that instance - the next item starts from the
+// template again; every instance equals the same item rendered alone
+func c04DescendantState(r *Run) {
+	bodies := []string{
+		`<b style="color:red" v-show="row.on" v-text="row.name">old</b>`,
+		`<span><i style="x:y" class="k" :class="{hot: row.on}" v-show="row.on" v-html="row.name"></i></span>`,
+		`<template v-if="row.on"><u style="a:b" v-show="row.on" v-text="row.name"></u></template><s v-else style="a:b" v-show="row.on" v-text="row.name"></s>`,
+		`<em v-for="q in one" style="m:n" v-show="row.on" v-text="row.name"></em>`,
+	}
+	masks := [][]bool{{true, false, true}, {false, true}, {false, false, true, true}, {true}}
+	for bi, body := range bodies {
+		for mi, mask := range masks {
+			tpl := `<li v-for="(i, row) in rows">{{ i }}:` + body + `</li>`
+			var rows []any
+			want := ""
+			for i, on := range mask {
+				row := map[string]any{"on": on, "name": fmt.Sprintf("n%d", i)}
+				rows = append(rows, row)
+				// the same item alone (its index written out literally)
+				alone, _ := c04Render(`<li v-for="(j, row) in rows">`+fmt.Sprint(i)+`:`+body+`</li>`, map[string]any{"rows": []any{row}, "one": []any{1}})
+				want += strings.Join(strings.Fields(alone), "")
+			}
+			out, err := c04Render(tpl, map[string]any{"rows": rows, "one": []any{1}})
+			got2 := strings.Join(strings.Fields(out), "")
+			r.Eval(fmt.Sprintf("descendant-state:%d:%d", bi, mi), len(mask) >= 2, nil)
+			r.Count("stream:descendant-state(oracle only)")
+			if err != nil || got2 != want {
+				r.Fail("an instance of a loop shows state that another instance left on an element inside the looped element", map[string]string{"oracle": "descendant-state", "body": fmt.Sprint(bi)},
+					map[string]any{"template": tpl, "rows_on": fmt.Sprint(mask), "output": out, "expected_without_whitespace": want, "err": fmt.Sprint(err)})
 			}
 		}
 	}
